@@ -196,7 +196,7 @@ def run_property(prop, spec, tier, seed, replay=None):
         elif p['rc'] not in (0, 1) or (p['rc'] == 1 and not st):
             # died: sanitizer report, assert, signal, watchdog
             jr = read_journal(os.path.join(work, 'journal-%s' % p['tag']))
-            logtail = open(os.path.join(work, 'log-%s.txt' % p['tag']), errors='replace').read()[-3000:]
+            logtail = open(os.path.join(work, 'log-%s.txt' % p['tag']), errors='replace').read()[-20000:]
             if jr is None:
                 agg['notes']['crash-' + p['tag']] = 'process died (rc=%s) outside any case: %s' % (p['rc'], logtail[-500:])
                 failures.append((None, 'crash-outside-case rc=%s: %s' % (p['rc'], logtail[-800:]), j))
